@@ -29,24 +29,37 @@ Definition report_pending_steps (ntotal : N) : N := if ntotal =? 0 then 0 else r
 Definition report_missing_targets (nt nd : N) : N :=
   if (0 <? nt) || (0 <? nd) then rc_WARNING else 0.
 
-Definition report_glob_violations (nw ne : N) : N :=
-  N.lor (if 0 <? nw then rc_WARNING else 0) (if 0 <? ne then rc_FAILED else 0).
+(* errors_only: the warning class (unjustified match without a node) is left out; a match that an
+   attached step builds is reported either way. *)
+Definition report_glob_violations (errors_only : bool) (nw ne : N) : N :=
+  N.lor (if (0 <? nw) && negb errors_only then rc_WARNING else 0) (if 0 <? ne then rc_FAILED else 0).
 
-(* finalize.report_unbuilt, in the guard order of the code. *)
+(* finalize.report_unbuilt, in the guard order of the code (after fix 4c893f7). *)
 Definition report_unbuilt (i : ru_in) : N :=
+  let rc := if 0 <? ru_nfailed i then rc_FAILED else 0 in
+  if ru_draining i then
+    N.lor (N.lor rc rc_DRAINED) (report_glob_violations true (ru_glob_warn i) (ru_glob_err i))
+  else
+    let rc := N.lor (N.lor rc (report_pending_steps (ru_npending i)))
+                    (report_missing_targets (ru_miss_targets i) (ru_miss_dirs i)) in
+    N.lor rc (report_glob_violations (negb (rc =? 0)) (ru_glob_warn i) (ru_glob_err i)).
+
+(* The guard chain as it was before fix 4c893f7 (finding D7): glob validation only when the code is
+   still zero, nothing after the draining return.  Kept so that a regression can be named. *)
+Definition report_unbuilt_prefix (i : ru_in) : N :=
   let rc := if 0 <? ru_nfailed i then rc_FAILED else 0 in
   if ru_draining i then N.lor rc rc_DRAINED
   else
     let rc := N.lor (N.lor rc (report_pending_steps (ru_npending i)))
                     (report_missing_targets (ru_miss_targets i) (ru_miss_dirs i)) in
-    if rc =? 0 then report_glob_violations (ru_glob_warn i) (ru_glob_err i) else rc.
+    if rc =? 0 then report_glob_violations false (ru_glob_warn i) (ru_glob_err i) else rc.
 
 (* The same function assembled from the generated pieces (proved equal in PendingProofs). *)
 Definition report_unbuilt_gen (i : ru_in) : N :=
   gen_report_unbuilt (ru_nfailed i) (ru_draining i)
     (gen_report_pending_steps (ru_npending i))
     (gen_report_missing_targets (ru_miss_targets i) (ru_miss_dirs i))
-    (gen_report_glob_violations (ru_glob_warn i) (ru_glob_err i)).
+    (fun errors_only => gen_report_glob_violations errors_only (ru_glob_warn i) (ru_glob_err i)).
 
 (* director.serve: an invalid target returns early, otherwise Builder.returncode of the last
    phase, which Builder.finalize assigns from report_unbuilt and nothing else touches. *)
